@@ -102,6 +102,7 @@ type SliceVal struct {
 	Len   *sym.Term
 	Cells map[string]*sym.Term
 	Tag   string // symbolic lists read from a configuration: unknown cells are cell(tag, k)
+	Zero  bool   // allocated by make: cells never stored hold the zero value
 }
 
 // ArrVal is a fixed array of scalar temporaries (t [3]Scalar).
@@ -200,6 +201,8 @@ type Config struct {
 	Decl DeclFinder
 	// RecvStruct: the receiver of the analysed method is this object (struct mode).
 	RecvStruct *StructVal
+	// UnrollConst: counted loops with constant bounds are unrolled concretely (estimator accumulators over a pool of one thread).
+	UnrollConst bool
 	// IntSyms: symbols known to denote integers (trunc(s) = s).
 	IntSyms map[string]bool
 	// RecvFresh: every enumerated path starts from a deep copy of RecvStruct (methods may update scratch fields).
@@ -430,6 +433,9 @@ func (it *Interp) paramValue(t types.Type, name string, pos token.Pos) Value {
 	}
 	if n := namedOf(t); n != nil && n.Obj().Name() == "ConfigDistribution" {
 		return &OpaqueVal{"config"}
+	}
+	if n := namedOf(t); n != nil && n.Obj().Name() == "ThreadPool" {
+		return &OpaqueVal{"pool"}
 	}
 	if n := namedOf(t); n != nil && n.Obj().Name() == "ScalarType" {
 		return &OpaqueVal{"scalartype"}
@@ -862,6 +868,9 @@ func (it *Interp) eval(e ast.Expr) Value {
 			if sl.Tag != "" {
 				return sym.Fn("cell", sym.Sym(sl.Tag), it.evalTerm(x.Index))
 			}
+			if sl.Zero && it.cfg.UnrollConst {
+				return sym.Zero()
+			}
 			return sym.Fn("cell", sym.Sym(k))
 		}
 		if a, ok := base.(*ArrVal); ok {
@@ -1018,6 +1027,16 @@ var mathFn = map[string]string{
 	"special.Gamma": "gamma", "special.Lgamma": "lgamma",
 }
 
+func init() {
+	// autodiff.LogAdd(a, b) = log(exp a + exp b) on float64
+	mathFn["autodiff.LogAdd"] = "logaddf"
+	mathFn["logarithmetic.LogAdd"] = "logaddf"
+	mathFn["special.LogAdd"] = "logaddf"
+	mathFn["special.LogSub"] = "logsubf"
+	mathFn["logarithmetic.LogSub"] = "logsubf"
+	mathFn["autodiff.LogSub"] = "logsubf"
+}
+
 func calleeOf(info *types.Info, call *ast.CallExpr) *types.Func {
 	var id *ast.Ident
 	switch f := ast.Unparen(call.Fun).(type) {
@@ -1081,7 +1100,7 @@ func (it *Interp) call(call *ast.CallExpr) Value {
 				}
 			case "make":
 				if len(call.Args) == 2 {
-					return &SliceVal{Len: it.evalTerm(call.Args[1]), Cells: map[string]*sym.Term{}}
+					return &SliceVal{Len: it.evalTerm(call.Args[1]), Cells: map[string]*sym.Term{}, Zero: true}
 				}
 			}
 			it.undecided(call.Pos(), "builtin %s", b.Name())
@@ -1167,6 +1186,12 @@ func (it *Interp) callFunc(fn *types.Func, call *ast.CallExpr) Value {
 		var args []*sym.Term
 		for _, a := range call.Args {
 			args = append(args, it.evalTerm(a))
+		}
+		switch name {
+		case "logaddf":
+			return sym.Fn("log", sym.Add(sym.Fn("exp", args[0]), sym.Fn("exp", args[1])))
+		case "logsubf":
+			return sym.Fn("log", sym.Sub(sym.Fn("exp", args[0]), sym.Fn("exp", args[1])))
 		}
 		return sym.Fn(name, args...)
 	}
@@ -1691,6 +1716,21 @@ func (it *Interp) forStmt(x *ast.ForStmt) {
 			}
 			if pid, ok := inc.X.(*ast.Ident); !ok || it.info.Uses[pid] != obj {
 				it.undecided(pos, "loop post variable")
+			}
+			if it.cfg.UnrollConst {
+				cl, okL := lo.IsConst()
+				ch, okH := hi.IsConst()
+				if okL && okH && cl.IsInt() && ch.IsInt() {
+					a, b := cl.Num().Int64(), ch.Num().Int64()
+					if b-a < 16 {
+						delete(it.loopVar, obj)
+						for v := a; v <= b && !it.done; v++ {
+							it.setVar(obj, sym.Int(v), true)
+							it.block(x.Body.List)
+						}
+						return
+					}
+				}
 			}
 		default:
 			it.undecided(pos, "loop init %T", v)
